@@ -13,10 +13,12 @@
      socket/message.go UnmarshalBody, *[]byte          copy( *body, bodyBytes)              owns
      codec/plain_codec.go Unmarshal, *string           *s = string(data)                   owns
      codec/plain_codec.go Unmarshal, *[]byte           copy( *s, data)                      owns
-     codec/plain_codec.go parseProperType, String      v.SetString(goutil.BytesToString(data))   WINDOW
-     codec/plain_codec.go parseProperType, Slice       v.SetBytes(data)                          WINDOW
-     codec/form_codec.go Unmarshal                     url.ParseQuery(goutil.BytesToString(data)):
-                                                       keys / values that need no unescaping are substrings   WINDOW
+     codec/plain_codec.go parseProperType, String      v.SetString(string(data))                 owns   (since /repo 46f1f9c;
+                                                       before: v.SetString(goutil.BytesToString(data))   WINDOW)
+     codec/plain_codec.go parseProperType, Slice       v.SetBytes(copy of data)                  owns   (since 46f1f9c; before: v.SetBytes(data)   WINDOW)
+     codec/form_codec.go Unmarshal                     url.ParseQuery(string(data))              owns   (since 46f1f9c; before:
+                                                       url.ParseQuery(goutil.BytesToString(data)): keys / values that need
+                                                       no unescaping are substrings of the parsed string   WINDOW)
      codec/json_codec.go, xml_codec.go, protobuf_codec.go, thrift_codec.go   (encoding/json, encoding/xml,
                                                        gogo proto.Unmarshal, thrift ReadString/ReadBinary)   own
    A transfer pipe sits in between: xfer/md5 OnUnpack returns src[:len-16] (still the window),
@@ -79,14 +81,18 @@ Inductive dkind :=
 (* a zero-copy table: which kinds are decoded without copying *)
 Definition zc_table := dkind -> bool.
 
-(* the table of the code as it is *)
-Definition code_zc : zc_table := fun k =>
+(* the table of the code as it is (after the repair 46f1f9c): every case copies *)
+Definition code_zc : zc_table := fun _ => false.
+
+(* the table of the code BEFORE 46f1f9c: named destinations of the plain codec and form
+   values without escapes were windows *)
+Definition code_zc_prefix : zc_table := fun k =>
   match k with
   | KPlainNamedString | KPlainNamedBytes | KFormValue => true
   | _ => false
   end.
 
-(* the same with the plain codec's *string case converted in place *)
+(* the code as it is with the plain codec's *string case converted in place *)
 Definition string_zc : zc_table := fun k =>
   match k with
   | KPlainString => true
